@@ -45,7 +45,7 @@ if __name__ == "__main__":
     n = int(sys.argv[1]) if len(sys.argv) > 1 else 100
     seed = int(sys.argv[2]) if len(sys.argv) > 2 else 0
     rng = random.Random(seed)
-    g = syncfam.Gen(rng, max_nodes=int(os.environ.get("MAXN","10")), max_events=15, faults=bool(os.environ.get("FAULTS")))
+    g = syncfam.Gen(rng, max_nodes=int(os.environ.get("MAXN","10")), max_events=15, faults=os.environ.get("FAULTS"))
     t0 = time.time()
     co = []
     for i in range(n):
